@@ -956,6 +956,9 @@ func (pk *Packet) SubscribeDecode(buf []byte) error {
 		}
 
 		if pk.ProtocolVersion == 5 {
+			if offset >= len(buf) {
+				return ErrMalformedQos // the subscription options byte is missing
+			}
 			sub.decode(buf[offset])
 			offset += 1
 		} else {
